@@ -389,16 +389,23 @@ def task_process_message(cls, registered):
         dspec = z3.And(z3.BoolVal(fc), st0.is_device(e, pos_d), e != sender.term, accepts_fn(e, mdev))
         run.oblige("C04|process_message[%s]/devices-exactly-once" % tag,
                    forall(e, z3.Select(I.ghost["dev_cnt"], e) == ite(dspec, 1, 0)))
-        cspec = z3.And(z3.BoolVal(fd), st0.is_client(e, pos_c), e != sender.term,
+        # originates from a device: its sender is not one of the registered clients; of the client-originated kinds only
+        # getProperties (both flags) is relayed to the other clients (C04), anything else a client sends must not reach them (C12)
+        relayed = z3.Or(z3.BoolVal(fc), z3.Not(st0.is_client(sender.term, pos_c)))
+        cspec = z3.And(z3.BoolVal(fd), relayed, st0.is_client(e, pos_c), e != sender.term,
                        lets_through(st0.policy(e, mdev), payload))
+        if fd and not fc:
+            run.oblige("C12,C04|process_message[%s]/a-device-kind-message-sent-by-a-client-reaches-no-other-client" % tag,
+                       implies(st0.is_client(sender.term, pos_c), forall(e, z3.Select(I.ghost["cli_cnt"], e) == 0)))
         run.oblige("C05,C04|process_message[%s]/clients-exactly-once-by-policy" % tag,
                    forall(e, z3.Select(I.ghost["cli_cnt"], e) == ite(cspec, 1, 0)))
         if payload:
             run.oblige("C08,C05|process_message[%s]/clients-that-did-not-enable-BLOBs-receive-no-payload" % tag,
                        forall(e, implies(z3.Or(st0.policy(e, mdev) == UNSET, st0.policy(e, mdev) == NEVER), z3.Select(I.ghost["cli_cnt"], e) == 0)))
             run.oblige("C08,C05|process_message[%s]/every-other-client-that-enabled-BLOBs-receives-the-payload-once" % tag,
-                       forall(e, implies(z3.And(st0.is_client(e, pos_c), e != sender.term, z3.Or(st0.policy(e, mdev) == ALSO, st0.policy(e, mdev) == ONLY)),
-                                         z3.Select(I.ghost["cli_cnt"], e) == 1)))
+                       implies(z3.Not(st0.is_client(sender.term, pos_c)),          # (published by a device)
+                               forall(e, implies(z3.And(st0.is_client(e, pos_c), e != sender.term, z3.Or(st0.policy(e, mdev) == ALSO, st0.policy(e, mdev) == ONLY)),
+                                                 z3.Select(I.ghost["cli_cnt"], e) == 1))))
         if fc:
             run.canary("C04|canary[%s]/no-device-ever-receives-it" % tag, forall(e, z3.Select(I.ghost["dev_cnt"], e) == 0))
         if fd:
